@@ -21,7 +21,7 @@
 (* every exit: InKind(value, compiler's kind) (C01), errors only where the *)
 (* compiler said fallible (C02), constants (C12).                          *)
 (***************************************************************************)
-EXTENDS VrlCore, Kinds, Json, IOUtils
+EXTENDS VrlCore, Json, IOUtils
 
 Rec == ndJsonDeserialize(IOEnv.TRACE)
 
@@ -55,11 +55,23 @@ Desc(n) == CASE n.k = "op" -> "op:" \o n.o
              [] n.k = "call" -> "call:" \o n.f
              [] OTHER -> n.k
 
+\* where inside a call frame a control effect got lost: an argument of any function, or the
+\* closure body of a given function over a given collection type
+DescCtl(f) ==
+  LET n == f.n IN
+  IF n.k # "call" THEN Desc(n)
+  ELSE IF n.cls = "iter" /\ Len(f.acc) > Len(n.a)
+       THEN "closure:" \o n.f \o ":" \o (IF IsOk(f.acc[1]) THEN f.acc[1].v.t ELSE "?")
+       ELSE "call-argument"
+
+\* description for static findings: operators also say whether the lhs was a compile-time constant
+DescSt(n) == IF n.k = "op" /\ "st" \in DOMAIN n.l /\ n.l.st.hc THEN Desc(n) \o "(const-lhs)" ELSE Desc(n)
+
 Top == k[Len(k)]
 Pop == SubSeq(k, 1, Len(k) - 1)
 
 Bump(c, name) == [c EXCEPT ![name] = @ + 1]
-CntNames == {"runs", "events", "skipped_runs", "kind_checks", "const_checks", "err_exits",
+CntNames == {"runs", "events", "skipped_runs", "rejected", "kind_checks", "const_checks", "err_exits",
              "C01", "C02", "C06", "C07", "C08", "C09", "C12", "C13", "C15", "C16", "C17"}
 
 (* ---------- outcome comparison ---------- *)
@@ -84,9 +96,9 @@ Absorb(f, out) ==
 Blame(f) ==
   LET n == f.n  acc == f.acc IN
   IF Len(acc) > 0 /\ Last(acc).o = "ret" /\ n.k # "ret"
-    THEN [prop |-> "C06", rule |-> "ReturnNotPropagated", at |-> Desc(n)]
+    THEN [prop |-> "C06", rule |-> "ReturnNotPropagated", at |-> DescCtl(f)]
   ELSE IF Len(acc) > 0 /\ Last(acc).o = "abort"
-    THEN [prop |-> "C07", rule |-> "AbortNotPropagated", at |-> Desc(n)]
+    THEN [prop |-> "C07", rule |-> "AbortNotPropagated", at |-> DescCtl(f)]
   ELSE CASE n.k = "op" /\ n.o \in {"or", "and"} -> [prop |-> "C09", rule |-> "ShortCircuit", at |-> Desc(n)]
          [] n.k = "if"                          -> [prop |-> "C09", rule |-> "Conditional", at |-> Desc(n)]
          [] n.k = "op" /\ n.o = "err"           -> [prop |-> "C08", rule |-> "ErrCoalesce", at |-> Desc(n)]
@@ -130,22 +142,27 @@ ExitFlags(f, out) ==
 HasStatic(n) == HasF(n, "st")
 ChildErr(f) == \E j \in 1..Len(f.acc) : f.acc[j].o = "err"
 
+\* A read of a variable that was never assigned at run time (the interpreter yields null) is
+\* distinguished from a read of an assigned variable whose value is outside its type.
+UnsetRead(f) == f.n.k \in {"var", "qv"} /\ f.n.x \notin DOMAIN vars
+
 StaticFindings(f, out) ==
   LET n == f.n IN
-  IF ~HasStatic(n) THEN <<>>
+  IF ~HasStatic(n) \/ "tainted" \in flags THEN <<>>
   ELSE
    (IF IsOk(out) /\ ~InKind(out.v, n.st.kd)
       THEN << [prop |-> (IF n.k = "call" THEN "C03" ELSE "C01"),
-               rule |-> (IF n.k \in {"var", "qv"} THEN "VarReadKind" ELSE "ExprKind"),
-               at |-> Desc(n)] >>
+               rule |-> (IF UnsetRead(f) THEN "UnsetVarReadKind"
+                         ELSE IF n.k \in {"var", "qv"} THEN "VarReadKind" ELSE "ExprKind"),
+               at |-> DescSt(n)] >>
       ELSE <<>>)
    \o
    (IF IsOk(out) /\ n.st.hc /\ out.v # n.st.c
-      THEN << [prop |-> "C12", rule |-> "ConstMatches", at |-> Desc(n)] >>
+      THEN << [prop |-> "C12", rule |-> (IF UnsetRead(f) THEN "ConstOfUnsetVar" ELSE "ConstMatches"), at |-> DescSt(n)] >>
       ELSE <<>>)
    \o
    (IF out.o = "err" /\ ~ChildErr(f) /\ ~n.st.fal /\ ~(n.k = "call" /\ n.bang)
-      THEN << [prop |-> "C02", rule |-> "InfallibleNodeErrs", at |-> Desc(n)] >>
+      THEN << [prop |-> "C02", rule |-> "InfallibleNodeErrs", at |-> DescSt(n)] >>
       ELSE <<>>)
 
 RECURSIVE AddAll(_, _, _)
@@ -213,10 +230,12 @@ T_Exit ==
      IF ~okexit
      THEN Abandon(Blame(f), [got |-> "exit " \o Ev.k \o " " \o out.o, expected |-> x.a])
      ELSE LET sf == StaticFindings(f, out)
-              scoped == (f.n.k = "call" /\ HasF(f.n, "cl")) => ParamsRestored(f, NewVars)
+              \* "finishes, whether it succeeds or fails": abort / return end the whole program,
+              \* after which no variable can be observed any more
+              scoped == (f.n.k = "call" /\ HasF(f.n, "cl") /\ out.o \in {"ok", "err"}) => ParamsRestored(f, NewVars)
               \* variable store after the construct must be what the construct's rule says
               storeok == \/ f.n.k \notin {"asg", "asg2"}
-                         \/ (f.n.k = "asg2" /\ IsOk(out) /\ f.acc[1].o = "err" /\ ~HasF(f.n, "dflt"))
+                         \/ (f.n.k = "asg2" /\ IsOk(out) /\ f.acc[1].o = "err" /\ ~HasDefault(f.n))
                          \/ ExitVars(f, out, vars) = NewVars
           IN
           IF ~scoped
@@ -229,7 +248,7 @@ T_Exit ==
           ELSE /\ vars' = NewVars
                /\ k' = Append(SubSeq(k, 1, Len(k) - 2), Absorb(k[Len(k) - 1], out))
                /\ viols' = AddAll(viols, sf, [got |-> out, expected |-> "static"])
-               /\ flags' = flags \cup ExitFlags(f, out)
+               /\ flags' = flags \cup ExitFlags(f, out) \cup (IF sf # <<>> THEN {"tainted"} ELSE {})
                /\ cnt' = LET c1 == Bump(cnt, "events")
                              c2 == IF HasStatic(f.n) /\ IsOk(out) THEN Bump(c1, "kind_checks") ELSE c1
                              c3 == IF HasStatic(f.n) /\ IsOk(out) /\ f.n.st.hc THEN Bump(c2, "const_checks") ELSE c2
@@ -271,22 +290,23 @@ T_Target ==
        ELSE Abandon(Blame(f), [got |-> "target " \o Ev.op, expected |-> x.a])
 
 \* whole-run checks at Runtime::resolve's return
-FinalFindings(res) ==
+FinalFindings(res, viaret) ==
   LET fin == prog.final
-      okrun == res.r = "ok" IN
+      okrun == res.r = "ok"
+      sfx == IF viaret THEN "AfterReturn" ELSE "" IN
   (IF okrun /\ ~(InKind(res.v, fin.result) \/ InKind(res.v, fin.returns))
-     THEN << [prop |-> "C01", rule |-> "ResultKind", at |-> "program"] >> ELSE <<>>)
+     THEN << [prop |-> "C01", rule |-> "ResultKind" \o sfx, at |-> "program"] >> ELSE <<>>)
   \o (IF okrun /\ ~Ev.faulted /\ ~InKind(Ev.ev, fin.target)
-     THEN << [prop |-> "C01", rule |-> "EventKind", at |-> "program"] >> ELSE <<>>)
+     THEN << [prop |-> "C01", rule |-> "EventKind" \o sfx, at |-> "program"] >> ELSE <<>>)
   \o (IF okrun /\ ~Ev.faulted /\ ~InKind(Ev.meta, fin.metadata)
-     THEN << [prop |-> "C01", rule |-> "MetadataKind", at |-> "program"] >> ELSE <<>>)
+     THEN << [prop |-> "C01", rule |-> "MetadataKind" \o sfx, at |-> "program"] >> ELSE <<>>)
   \o (IF ~okrun /\ ~prog.has_bang /\ ~prog.has_abort /\ ~Ev.faulted /\ ~Ev.nan
      THEN << [prop |-> "C02", rule |-> "NoRuntimeFailure", at |-> "program"] >> ELSE <<>>)
   \o (IF res.r = "error" /\ ~prog.info.fallible /\ ~Ev.faulted /\ ~Ev.nan
      THEN << [prop |-> "C02", rule |-> "InfoFallible", at |-> "program"] >> ELSE <<>>)
   \o (IF res.r = "abort" /\ ~prog.info.abortable
      THEN << [prop |-> "C02", rule |-> "InfoAbortable", at |-> "program"] >> ELSE <<>>)
-  \o (IF \E j \in 1..Len(prog.cparams) : prog.cparams[j] \in DOMAIN Ev.vars
+  \o (IF okrun /\ \E j \in 1..Len(prog.cparams) : prog.cparams[j] \in DOMAIN Ev.vars
      THEN << [prop |-> "C13", rule |-> "ParamVisibleAtEnd", at |-> "program"] >> ELSE <<>>)
 
 ResEq(want, got) ==
@@ -302,7 +322,8 @@ T_End ==
      IF Len(k) = 1 /\ x.a = "exit" /\ x.hv /\ ResEq(FinishOf(x.v), Ev.res)
      THEN /\ mode' = "idle" /\ k' = <<>>
           /\ vars' = Ev.vars
-          /\ viols' = AddAll(viols, FinalFindings(Ev.res), [got |-> Ev.res, expected |-> "final"])
+          /\ viols' = (IF "tainted" \in flags THEN viols
+                        ELSE AddAll(viols, FinalFindings(Ev.res, x.v.o = "ret"), [got |-> Ev.res, expected |-> "final"]))
           /\ cnt' = LET c1 == Bump(cnt, "events")
                         Fl(c, s) == IF s \in flags THEN Bump(c, s) ELSE c
                     IN Fl(Fl(Fl(Fl(Fl(Fl(c1, "C06"), "C07"), "C08"), "C09"), "C13"), "C16")
@@ -316,12 +337,31 @@ T_End ==
                    ELSE [prop |-> "D", rule |-> "End", at |-> "program"]),
                   [got |-> Ev.res, expected |-> x.a])
 
+\* the real compiler rejected a generated program: nothing to validate, counted only
+T_Reject ==
+  /\ l <= Len(Rec) /\ Ev.e = "reject"
+  /\ mode' = "idle" /\ k' = <<>>
+  /\ cnt' = Bump(Bump(cnt, "events"), "rejected")
+  /\ l' = l + 1
+  /\ UNCHANGED <<vars, prog, run, viols, divs, flags>>
+
+\* a panic of the code under test is data: no action of the machine explains it (C04)
+T_Panic ==
+  /\ l <= Len(Rec) /\ Ev.e = "panic"
+  /\ mode' = "idle" /\ k' = <<>>
+  /\ viols' = Append(viols, [prop |-> "C04", rule |-> "NoPanic", at |-> Ev.where,
+                              what |-> [got |-> Ev.message, expected |-> "no panic"],
+                              prog |-> (IF HasF(Ev, "id") THEN Ev.id ELSE prog.id), line |-> l])
+  /\ cnt' = Bump(cnt, "events")
+  /\ l' = l + 1
+  /\ UNCHANGED <<vars, prog, run, divs, flags>>
+
 TraceInit ==
   /\ l = 1 /\ k = <<>> /\ vars = <<>> /\ prog = [id |-> 0] /\ run = [probe |-> FALSE]
   /\ mode = "idle" /\ viols = <<>> /\ divs = <<>>
   /\ cnt = [c \in CntNames |-> 0] /\ flags = {}
 
-TraceNext == T_Prog \/ T_Start \/ T_Skip \/ T_Enter \/ T_Exit \/ T_Target \/ T_End
+TraceNext == T_Prog \/ T_Start \/ T_Skip \/ T_Enter \/ T_Exit \/ T_Target \/ T_End \/ T_Reject \/ T_Panic
 
 TraceSpec == TraceInit /\ [][TraceNext]_tvars
 
